@@ -443,3 +443,52 @@ func typeKey(t types.Type) string {
 	}
 	return relPkg(n.Obj().Pkg().Path()) + "." + n.Obj().Name()
 }
+
+var addrTakenMemo map[*ssa.Function]bool
+
+// addressTaken: fn is used as a value somewhere in the repository (stored, passed, bound as a method value) rather
+// than only called statically.
+func (p *Prog) addressTaken(fn *ssa.Function) bool {
+	if addrTakenMemo == nil {
+		addrTakenMemo = map[*ssa.Function]bool{}
+		for _, f := range p.AllFuncs {
+			for _, b := range f.Blocks {
+				for _, in := range b.Instrs {
+					var callee ssa.Value
+					if cc, ok := in.(ssa.CallInstruction); ok && !cc.Common().IsInvoke() {
+						callee = cc.Common().Value
+					}
+					for _, op := range in.Operands(nil) {
+						if op == nil || *op == nil {
+							continue
+						}
+						g, isFn := (*op).(*ssa.Function)
+						if !isFn {
+							continue
+						}
+						if ssa.Value(g) == callee {
+							// the call target itself — but a bound-method wrapper called here still takes the address
+							if g.Synthetic == "" {
+								continue
+							}
+						}
+						addrTakenMemo[g] = true
+						// a bound method value / thunk wraps the declared method
+						if g.Synthetic != "" {
+							for _, bb := range g.Blocks {
+								for _, ii := range bb.Instrs {
+									if c2, ok := ii.(ssa.CallInstruction); ok {
+										if t := c2.Common().StaticCallee(); t != nil {
+											addrTakenMemo[t] = true
+										}
+									}
+								}
+							}
+						}
+					}
+				}
+			}
+		}
+	}
+	return addrTakenMemo[fn]
+}
